@@ -14,10 +14,12 @@ import (
 	"os/exec"
 	"path/filepath"
 	"sort"
+	"strconv"
 	"strings"
 	"sync"
 	"syscall"
 	"time"
+	"unicode/utf8"
 
 	slug "github.com/hashicorp/go-slug"
 )
@@ -37,6 +39,51 @@ type PNode struct {
 	// Keeps megabyte rule files out of reports and replay files.
 	FillKind  string `json:"fill_kind,omitempty"`
 	FillBytes int    `json:"fill_bytes,omitempty"`
+}
+
+// Names and link targets may hold bytes that are not valid UTF-8 (seed C20-g); encoding/json would
+// replace those by U+FFFD, and a replayed case would rebuild another tree. Such a node is written
+// with "path_hex" / "data_hex" next to the (lossy, readable) "path" / "data"; reading prefers the hex.
+type pnodePlain PNode
+
+type pnodeWire struct {
+	pnodePlain
+	PathHex string `json:"path_hex,omitempty"`
+	DataHex string `json:"data_hex,omitempty"`
+}
+
+func (n PNode) MarshalJSON() ([]byte, error) {
+	w := pnodeWire{pnodePlain: pnodePlain(n)}
+	if !utf8.ValidString(n.Path) {
+		w.PathHex = hex.EncodeToString([]byte(n.Path))
+	}
+	if !utf8.ValidString(n.Data) {
+		w.DataHex = hex.EncodeToString([]byte(n.Data))
+	}
+	return json.Marshal(w)
+}
+
+func (n *PNode) UnmarshalJSON(b []byte) error {
+	var w pnodeWire
+	if err := json.Unmarshal(b, &w); err != nil {
+		return err
+	}
+	*n = PNode(w.pnodePlain)
+	if w.PathHex != "" {
+		raw, err := hex.DecodeString(w.PathHex)
+		if err != nil {
+			return err
+		}
+		n.Path = string(raw)
+	}
+	if w.DataHex != "" {
+		raw, err := hex.DecodeString(w.DataHex)
+		if err != nil {
+			return err
+		}
+		n.Data = string(raw)
+	}
+	return nil
 }
 
 // nodeData is the content written for a file node.
@@ -292,8 +339,15 @@ func canonPack(o packOut) string {
 
 // ---------- generator ----------
 
-var pNames = []string{"a", "b", "c.tf", "d", "e", ".git", ".terraform", "modules", "x y", "é", "foo", "bar", ".terraformignore-not", "z", "..data", "...", "..2024", "-dash", ".hidden"}
-var pRuleFiles = []string{"", "foo\n", "d/\n", "*.tf\n", "d/\n!d/e\n", "/a\n", "**/b\n", "d/*\n", "!foo\nfoo/\n", "# c\n\n  \n!\nbar/\n", "e\n!e/a\n", "a+b\n", "d/**/a\n"}
+var pNames = []string{"a", "b", "c.tf", "d", "e", ".git", ".terraform", "modules", "x y", "é", "foo", "bar", ".terraformignore-not", "z", "..data", "...", "..2024", "-dash", ".hidden",
+	// a backslash is an ordinary file-name character here (seed C03-g: the path given to the rules with
+	// '\\' turned into '/'): inner, leading, trailing, several; each is ONE path segment
+	`d\e`, `sub\id.pem`, `logs\notes.txt`, `\b`, `foo\`, `d\e\a`}
+var pRuleFiles = []string{"", "foo\n", "d/\n", "*.tf\n", "d/\n!d/e\n", "/a\n", "**/b\n", "d/*\n", "!foo\nfoo/\n", "# c\n\n  \n!\nbar/\n", "e\n!e/a\n", "a+b\n", "d/**/a\n",
+	// verdicts that depend on where a segment ends, for names with a backslash (patterns have none:
+	// a backslash in a PATTERN is outside the modelled fragment): anchored, directory rule, '?' and '*'
+	// next to the backslash
+	"/*.pem\nlogs/\n", "?b\n/d*\n", "d/\n/f?o?\n"}
 
 // Trees in which a dereferenced directory leads back to itself are generated for C19 only: on code
 // without the F26 repair they kill the whole lane process (stack overflow), which would turn the
@@ -486,7 +540,137 @@ func hasLongRuleLine(c *PCase) bool {
 	return false
 }
 
+// names with a backslash next to rules whose verdict depends on segment boundaries (seed C03-g): the
+// top-level file `sub\id.pem` is covered by '/*.pem' (it is not the file id.pem of a directory sub), the
+// top-level file `logs\notes.txt` is not covered by 'logs/'
+func backslashNamesCase(deref bool, rules string) *PCase {
+	return &PCase{Src: "@ARENA@/p/src", Deref: deref, Ignore: true, Nodes: []PNode{
+		{Path: "p", Kind: "d", Perm: 0755, Mtime: 1300000000e9},
+		{Path: "p/src", Kind: "d", Perm: 0755, Mtime: 1300000001e9},
+		{Path: "p/src/main.tf", Kind: "f", Perm: 0644, Mtime: 1300000010e9, Data: "m"},
+		{Path: "p/src/id.pem", Kind: "f", Perm: 0600, Mtime: 1300000010e9, Data: "top-level key"},
+		{Path: "p/src/sub", Kind: "d", Perm: 0755, Mtime: 1300000010e9},
+		{Path: "p/src/sub/id.pem", Kind: "f", Perm: 0600, Mtime: 1300000010e9, Data: "kept: not at the top level"},
+		{Path: "p/src/sub/main.tf", Kind: "f", Perm: 0644, Mtime: 1300000010e9, Data: "s"},
+		{Path: "p/src/sub/win\\style.tf", Kind: "f", Perm: 0644, Mtime: 1300000010e9, Data: "w"},
+		{Path: "p/src/logs", Kind: "d", Perm: 0755, Mtime: 1300000010e9},
+		{Path: "p/src/logs/app.log", Kind: "f", Perm: 0644, Mtime: 1300000010e9, Data: "log"},
+		{Path: "p/src/logs.txt", Kind: "f", Perm: 0644, Mtime: 1300000010e9, Data: "l"},
+		{Path: "p/src/sub\\id.pem", Kind: "f", Perm: 0600, Mtime: 1300000010e9, Data: "top-level key with a backslash in its name"},
+		{Path: "p/src/logs\\notes.txt", Kind: "f", Perm: 0644, Mtime: 1300000010e9, Data: "kept: not below logs/"},
+		{Path: "p/src/\\lead", Kind: "f", Perm: 0644, Mtime: 1300000010e9, Data: "leading"},
+		{Path: "p/src/trail\\", Kind: "d", Perm: 0755, Mtime: 1300000010e9},
+		{Path: "p/src/trail\\/x\\y\\z", Kind: "f", Perm: 0644, Mtime: 1300000010e9, Data: "xyz"},
+		{Path: "p/src/.terraformignore", Kind: "f", Perm: 0644, Mtime: 1400000000e9, Data: rules},
+	}}
+}
+
+// names that are not valid UTF-8 (seed C20-g: the header written with U+FFFD in their place, Meta.Files
+// keeping the raw name): a Latin-1 file name, a directory with a lone continuation byte and a file
+// with 0xff below it, a lone lead byte, a truncated three-byte sequence, an encoded surrogate, an
+// overlong '/', links whose name / target have such bytes. The unchanged code stores such names byte
+// for byte (archive/tar puts a non-ASCII name into a PAX "path" / "linkpath" record and checks those
+// for NUL only), and Unpack re-creates them byte for byte. Oracle only: the model's strings are Unicode.
+func rawNamesNodes() []PNode {
+	return []PNode{
+		{Path: "p/src/caf\xe9.tf", Kind: "f", Perm: 0644, Mtime: 1300000010e9, Data: "latin-1"},
+		{Path: "p/src/mod\x80ules", Kind: "d", Perm: 0750, Mtime: 1300000011e9},
+		{Path: "p/src/mod\x80ules/v\xff.tf", Kind: "f", Perm: 0600, Mtime: 1300000012e9, Data: "v"},
+		{Path: "p/src/\xc3", Kind: "f", Perm: 0644, Mtime: 1300000013e9, Data: "lone lead byte"},
+		{Path: "p/src/tr\xe2\x82", Kind: "f", Perm: 0644, Mtime: 1300000014e9, Data: "truncated"},
+		{Path: "p/src/sur\xed\xa0\x80", Kind: "d", Perm: 0755, Mtime: 1300000015e9},
+		{Path: "p/src/over\xc0\xaflong", Kind: "f", Perm: 0644, Mtime: 1300000016e9, Data: "overlong"},
+		{Path: "p/src/l\xfenk", Kind: "l", Data: "caf\xe9.tf"},
+		{Path: "p/src/to-raw", Kind: "l", Data: "mod\x80ules/v\xff.tf"},
+		{Path: "p/src/mod\x80ules/up\xa0", Kind: "l", Data: "../\xc3"},
+	}
+}
+
+func rawNamesCase(deref, ignore bool) *PCase {
+	c := &PCase{Src: "@ARENA@/p/src", Deref: deref, Ignore: ignore, NoModel: true, Nodes: []PNode{
+		{Path: "p", Kind: "d", Perm: 0755, Mtime: 1300000000e9},
+		{Path: "p/src", Kind: "d", Perm: 0755, Mtime: 1300000001e9},
+		{Path: "p/src/main.tf", Kind: "f", Perm: 0644, Mtime: 1300000010e9, Data: "m"},
+		{Path: "p/src/café.tf", Kind: "f", Perm: 0644, Mtime: 1300000010e9, Data: "utf-8"},
+	}}
+	c.Nodes = append(c.Nodes, rawNamesNodes()...)
+	if ignore {
+		c.Nodes = append(c.Nodes, PNode{Path: "p/src/.terraformignore", Kind: "f", Perm: 0644, Mtime: 1400000000e9, Data: "*.bak\n/over?long\n"})
+	}
+	return c
+}
+
+// addRawNames puts one to three of the raw-name nodes (with what they need: the directory above a
+// file, the target of a link) into a generated tree; the case is then judged by the oracles only.
+func addRawNames(r *Rng, c *PCase) {
+	pool := rawNamesNodes()
+	have := map[string]bool{}
+	for _, n := range c.Nodes {
+		have[n.Path] = true
+	}
+	add := func(n PNode) {
+		if !have[n.Path] {
+			have[n.Path] = true
+			c.Nodes = append(c.Nodes, n)
+		}
+	}
+	k := 1 + r.Intn(3)
+	for j := 0; j < k; j++ {
+		n := pool[r.Intn(len(pool))]
+		if d := filepath.Dir(n.Path); d != "p/src" {
+			add(pool[1]) // the directory mod\x80ules
+		}
+		if n.Kind == "l" {
+			// the link's target: an existing raw-name node
+			switch n.Path {
+			case "p/src/l\xfenk":
+				add(pool[0])
+			case "p/src/to-raw":
+				add(pool[1])
+				add(pool[2])
+			default:
+				add(pool[3])
+			}
+		}
+		add(n)
+	}
+	c.NoModel = true
+}
+
+// the built-in exclusions apply whatever the rule file holds, also a rule file of zero bytes (seed
+// C10-g: an empty rule set for an empty file): .git and .terraform content is left out at any depth,
+// .terraform/modules content stays
+func emptyRuleFileCase(deref bool, rules string) *PCase {
+	return &PCase{Src: "@ARENA@/p/src", Deref: deref, Ignore: true, Nodes: []PNode{
+		{Path: "p", Kind: "d", Perm: 0755, Mtime: 1300000000e9},
+		{Path: "p/src", Kind: "d", Perm: 0755, Mtime: 1300000001e9},
+		{Path: "p/src/main.tf", Kind: "f", Perm: 0644, Mtime: 1300000010e9, Data: "m"},
+		{Path: "p/src/.git", Kind: "d", Perm: 0755, Mtime: 1300000010e9},
+		{Path: "p/src/.git/HEAD", Kind: "f", Perm: 0644, Mtime: 1300000010e9, Data: "ref: refs/heads/main"},
+		{Path: "p/src/.git/objects", Kind: "d", Perm: 0755, Mtime: 1300000010e9},
+		{Path: "p/src/.git/objects/ab", Kind: "f", Perm: 0444, Mtime: 1300000010e9, Data: "blob"},
+		{Path: "p/src/.terraform", Kind: "d", Perm: 0755, Mtime: 1300000010e9},
+		{Path: "p/src/.terraform/terraform.tfstate", Kind: "f", Perm: 0600, Mtime: 1300000010e9, Data: "state"},
+		{Path: "p/src/.terraform/providers", Kind: "d", Perm: 0755, Mtime: 1300000010e9},
+		{Path: "p/src/.terraform/providers/x", Kind: "f", Perm: 0755, Mtime: 1300000010e9, Data: "provider"},
+		{Path: "p/src/.terraform/modules", Kind: "d", Perm: 0755, Mtime: 1300000010e9},
+		{Path: "p/src/.terraform/modules/m", Kind: "d", Perm: 0755, Mtime: 1300000010e9},
+		{Path: "p/src/.terraform/modules/m/main.tf", Kind: "f", Perm: 0644, Mtime: 1300000010e9, Data: "kept"},
+		{Path: "p/src/modules", Kind: "d", Perm: 0755, Mtime: 1300000010e9},
+		{Path: "p/src/modules/child", Kind: "d", Perm: 0755, Mtime: 1300000010e9},
+		{Path: "p/src/modules/child/main.tf", Kind: "f", Perm: 0644, Mtime: 1300000010e9, Data: "c"},
+		{Path: "p/src/modules/child/.git", Kind: "d", Perm: 0755, Mtime: 1300000010e9},
+		{Path: "p/src/modules/child/.git/HEAD", Kind: "f", Perm: 0644, Mtime: 1300000010e9, Data: "ref"},
+		{Path: "p/src/modules/child/.terraform", Kind: "d", Perm: 0755, Mtime: 1300000010e9},
+		{Path: "p/src/modules/child/.terraform/lock.json", Kind: "f", Perm: 0644, Mtime: 1300000010e9, Data: "{}"},
+		{Path: "p/src/.terraformignore", Kind: "f", Perm: 0644, Mtime: 1400000000e9, Data: rules},
+	}}
+}
+
 var packCorpus = []*PCase{
+	backslashNamesCase(false, "# keys at the top level, the log directory\n/*.pem\nlogs/\n"), backslashNamesCase(true, "/*.pem\nlogs/\n"), backslashNamesCase(false, "/su?/*.pem\n?lead\ntrail*/x*\n!logs\n"),
+	rawNamesCase(false, false), rawNamesCase(true, true), rawNamesCase(false, true),
+	emptyRuleFileCase(false, ""), emptyRuleFileCase(true, ""), emptyRuleFileCase(false, "\n"),
 	bigRuleFileCase("rule-lines", 1<<20+4096, false), bigRuleFileCase("rule-lines", 1<<20+4096, true), bigRuleFileCase("long-line", 70<<10, false),
 	badPatternCase("logs/[0-9.log", false), badPatternCase("[z-a]", false), badPatternCase("[", true),symlinkedComponentCase("BB", true), symlinkedComponentCase("B", true), symlinkedComponentCase("BB", false),
 	oddSourceCase("@ARENA@/p/missing"), oddSourceCase("@ARENA@/p/plain"), oddSourceCase("@ARENA@/p/dangling"), oddSourceCase("@ARENA@/p/pipe"), oddSourceCase("@ARENA@/p/plain/"),
@@ -541,7 +725,7 @@ func genPCase(r *Rng) *PCase {
 
 func init() {
 	lanes["pack"] = func(cfg *Config, rep *Report) {
-		rep.Rule = "source trees of 1..9 nodes below src (files with modes 0000-0777 and .0/.4/.5/.6 s mtimes, directories incl. empty and read-only, fifos, links: in-tree relative/absolute, dangling, '..' detours, to a prefix-sharing sibling, to an outside file / directory / chain) next to outside decoys, x {dereference} x {ignore on/off with 13 rule files} x allow-lists; non-trivial = has a link, a rule file or a special file; distinct by (tree, options)"
+		rep.Rule = "source trees of 1..9 nodes below src (files with modes 0000-0777 and .0/.4/.5/.6 s mtimes, directories incl. empty and read-only, fifos, links: in-tree relative/absolute, dangling, '..' detours, to a prefix-sharing sibling, to an outside file / directory / chain) next to outside decoys, x {dereference} x {ignore on/off with 16 rule files} x allow-lists; names incl. backslashes (ordinary characters: one segment) under anchored / directory / wildcard rules; 4% of the trees with names, link names and link targets that are not valid UTF-8 (oracle only: Meta vs headers and the round trip, byte for byte); corpus: backslash names, non-UTF-8 names, .git / .terraform / .terraform/modules content next to a rule file of zero bytes; non-trivial = has a link, a rule file or a special file; distinct by (tree, options)"
 		packWithCycles = cfg.Prop == "C19"
 		corpus := packCorpus
 		if packWithCycles {
@@ -552,7 +736,11 @@ func init() {
 			if i < len(corpus) {
 				return []*PCase{corpus[i]}
 			}
-			return []*PCase{genPCase(r)}
+			c := genPCase(r)
+			if r.Chance(4) {
+				addRawNames(r, c)
+			}
+			return []*PCase{c}
 		})
 	}
 }
@@ -627,6 +815,21 @@ func runPackLane(cfg *Config, rep *Report, gen func(r *Rng, i int) []*PCase) {
 			}
 			rep.Case(fmt.Sprintf("%v", *c), nt, map[string]interface{}{"case": c, "result": out.class})
 			rep.Count("result:" + out.class)
+			rawName, bsName := false, false
+			for _, n := range c.Nodes {
+				if !utf8.ValidString(n.Path) || (n.Kind == "l" && !utf8.ValidString(n.Data)) {
+					rawName = true
+				}
+				if strings.HasPrefix(n.Path, "p/src/") && strings.Contains(n.Path, `\`) {
+					bsName = true
+				}
+			}
+			if rawName {
+				rep.Count("names:not-utf8 (oracle only):" + out.class)
+			}
+			if bsName && c.Ignore {
+				rep.Count("names:backslash, ignore on")
+			}
 			judgePack(rep, c, arena, src, allow, out, i)
 			if c.NoModel {
 				reqs[i] = ""
@@ -700,6 +903,15 @@ func unsafePNodes(nodes []PNode, others []string) string {
 		}
 	}
 	return ""
+}
+
+// showName renders a path for a report: as it is, or quoted with \x escapes when it is not valid
+// UTF-8 (the JSON encoder would replace those bytes)
+func showName(s string) string {
+	if utf8.ValidString(s) {
+		return s
+	}
+	return strconv.Quote(s)
 }
 
 func B01(b bool) string {
@@ -837,7 +1049,7 @@ func judgePack(rep *Report, c *PCase, arena, src string, allow []string, out pac
 						}
 					}
 					escSig = sig
-					fail("C05", fmt.Sprintf("link entry %s -> %q leaves the archive root at its position", e.Name, e.Link), sig)
+					fail("C05", fmt.Sprintf("link entry %s -> %q leaves the archive root at its position", showName(e.Name), e.Link), sig)
 				}
 			}
 		}
@@ -845,7 +1057,7 @@ func judgePack(rep *Report, c *PCase, arena, src string, allow []string, out pac
 			// without dereferencing, every body is the content of the file of that name inside src
 			b, err := os.ReadFile(filepath.Join(srcReal, e.Name))
 			if err != nil || string(b) != e.Body {
-				fail("C05", fmt.Sprintf("entry %s carries data that is not the content of that file inside the source directory", e.Name), "")
+				fail("C05", fmt.Sprintf("entry %s carries data that is not the content of that file inside the source directory", showName(e.Name)), "")
 			}
 		}
 		if strings.HasPrefix(e.Name, "../") || strings.HasPrefix(e.Name, "/") {
@@ -937,12 +1149,12 @@ func judgePack(rep *Report, c *PCase, arena, src string, allow []string, out pac
 				continue
 			}
 			if got[k] != v {
-				diffs = append(diffs, fmt.Sprintf("%s: source %q, unpacked %q", k, v, got[k]))
+				diffs = append(diffs, fmt.Sprintf("%s: source %q, unpacked %q", showName(k), v, got[k]))
 			}
 		}
 		for k := range got {
 			if _, ok := want[k]; !ok {
-				diffs = append(diffs, "extra: "+k)
+				diffs = append(diffs, "extra: "+showName(k))
 			}
 		}
 		if len(diffs) > 0 {
@@ -964,7 +1176,7 @@ func judgePack(rep *Report, c *PCase, arena, src string, allow []string, out pac
 		for _, e := range out.entries {
 			name := strings.TrimSuffix(e.Name, "/")
 			if !strings.HasPrefix(name, "../") && oExcluded(orules, name) {
-				fail("C03", fmt.Sprintf("%s is excluded by the rules but is in the slug (dereferencing on)", name), "")
+				fail("C03", fmt.Sprintf("%s is excluded by the rules but is in the slug (dereferencing on)", showName(name)), "")
 			}
 		}
 	}
@@ -986,14 +1198,14 @@ func judgePack(rep *Report, c *PCase, arena, src string, allow []string, out pac
 			}
 			ex := c.Ignore && oExcluded(orules, rel)
 			if ex && shipped[rel] {
-				fail("C03", fmt.Sprintf("%s is excluded by the rules but is in the slug", rel), "")
+				fail("C03", fmt.Sprintf("%s is excluded by the rules but is in the slug", showName(rel)), "")
 			}
 			if !ex && !shipped[rel] {
 				sig := ""
 				if c.Ignore {
 					sig = packPruneSignature(orules, rel)
 				}
-				fail("C03", fmt.Sprintf("%s is not excluded by the rules but is missing from the slug", rel), sig)
+				fail("C03", fmt.Sprintf("%s is not excluded by the rules but is missing from the slug", showName(rel)), sig)
 			}
 			return nil
 		})
@@ -1168,7 +1380,7 @@ func (s *slowWriter) Write(p []byte) (int, error) {
 
 func init() {
 	lanes["pack-spelling"] = func(cfg *Config, rep *Report) {
-		rep.Rule = "one generated tree per case, packed through: the absolute path (baseline), relative spellings from two working directories ('p/src', './p/src/.', 'p/./src', 'src' from p), a trailing slash, a '..' detour, an absolute root link, a relative root link (from its own directory and from elsewhere), a chained root link, 'link/'; after parsing rule files that begin with a negation; and with four Pack calls running concurrently; per tree one generated history (2-6 Pack / parse steps over 1-3 directories whose rule files share pattern texts with and without a later negation and are replaced in place, deleted, re-created) whose last Pack is repeated in a fresh process; for every fourth tree the package-level Pack held at its first write while another package-level Pack with the other dereference setting runs; non-trivial = every variant; distinct by (tree, variant)"
+		rep.Rule = "one generated tree per case, packed through: the absolute path (baseline), relative spellings from two working directories ('p/src', './p/src/.', 'p/./src', 'src' from p), a trailing slash, a '..' detour, an absolute root link, a relative root link (from its own directory and from elsewhere), a chained root link, 'link/', the source directory below a linked parent directory (relative / absolute / chained link, absolute and relative spelling), a relative spelling from a working directory entered through a link ($PWD spelled with the link); after parsing rule files that begin with a negation; and with four Pack calls running concurrently; per tree one generated history (2-6 Pack / parse steps over 1-3 directories whose rule files share pattern texts with and without a later negation and are replaced in place, deleted, re-created) whose last Pack is repeated in a fresh process; for every fourth tree the package-level Pack held at its first write while another package-level Pack with the other dereference setting runs; non-trivial = every variant; distinct by (tree, variant)"
 		r := NewRng(cfg.Seed)
 		work, err := filepath.EvalSymlinks(cfg.Work)
 		if err != nil {
@@ -1184,7 +1396,14 @@ func init() {
 		rootLinks := []PNode{
 			{Path: "abslink", Kind: "l", Data: "@ARENA@/p/src"},
 			{Path: "p/rellink", Kind: "l", Data: "src"},
-			{Path: "chain2", Kind: "l", Data: "@ARENA@/abslink"}}
+			{Path: "chain2", Kind: "l", Data: "@ARENA@/abslink"},
+			// links to the PARENT of the source directory (seed C16-g: the root resolved through the file
+			// system, the walked paths left as they were spelled): relative, absolute, and one that sits in a
+			// directory of its own (so that its '..' is not the arena)
+			{Path: "lnkparent", Kind: "l", Data: "p"},
+			{Path: "lnkparentabs", Kind: "l", Data: "@ARENA@/p"},
+			{Path: "q", Kind: "d", Perm: 0755, Mtime: 1300000020e9},
+			{Path: "q/up", Kind: "l", Data: "../lnkparent"}}
 		runOne := func(a int, c *PCase, isReplay bool, histories []*HCase) {
 			arena := filepath.Join(work, fmt.Sprintf("s%05d", a))
 			if err := materialiseP(arena, c.Nodes); err != nil {
@@ -1200,20 +1419,44 @@ func init() {
 			abs := arena + "/p/src"
 			type variant struct {
 				name, cwd, src, sig string
+				// pwd: the working directory was entered through a link and $PWD still spells it that way
+				// (os.Getwd, and with it filepath.Abs, answers $PWD when it names the working directory)
+				pwd bool
+			}
+			// a link of the tree with an ABSOLUTE target: generated ones are spelled with the physical path of
+			// the arena. With the source reached through a linked parent, the unchanged code compares such a
+			// target (or, with dereferencing, the targets of the links found below an absolute out-of-tree
+			// directory target, e.g. p/ext/dir/back -> ../../src/a) as a path string with the root as it was
+			// spelled, finds it outside, and the slug is another one (illegal / io / a copy instead of a
+			// link). The model does the same. The linked-parent spellings of such a tree are compared with
+			// the model only.
+			absInTreeLink := false
+			for _, n := range c.Nodes {
+				if n.Kind == "l" && strings.HasPrefix(n.Path, "p/src/") && strings.HasPrefix(n.Data, "@ARENA@") {
+					absInTreeLink = true
+				}
 			}
 			vs := []variant{
-				{"absolute", arena, abs, ""},
-				{"relative", arena, "p/src", ""},
-				{"relative-dots", arena, "./p/src/.", ""},
-				{"relative-inner-dot", arena, "p/./src", ""},
-				{"relative-from-p", arena + "/p", "src", ""},
-				{"trailing-slash", arena, abs + "/", ""},
-				{"dotdot-detour", arena, arena + "/p/ext/../src", ""},
-				{"abs-root-link", arena, arena + "/abslink", ""},
-				{"rel-root-link-own-dir", arena + "/p", arena + "/p/rellink", ""},
-				{"rel-root-link-other-cwd", arena, arena + "/p/rellink", "pack.root-relative-link"},
-				{"chained-root-link", arena, arena + "/chain2", "pack.root-chained-link"},
-				{"root-link-trailing-slash", arena, arena + "/abslink/", "pack.root-link-trailing-slash"},
+				{"absolute", arena, abs, "", false},
+				{"relative", arena, "p/src", "", false},
+				{"relative-dots", arena, "./p/src/.", "", false},
+				{"relative-inner-dot", arena, "p/./src", "", false},
+				{"relative-from-p", arena + "/p", "src", "", false},
+				{"trailing-slash", arena, abs + "/", "", false},
+				{"dotdot-detour", arena, arena + "/p/ext/../src", "", false},
+				{"abs-root-link", arena, arena + "/abslink", "", false},
+				{"rel-root-link-own-dir", arena + "/p", arena + "/p/rellink", "", false},
+				{"rel-root-link-other-cwd", arena, arena + "/p/rellink", "pack.root-relative-link", false},
+				{"chained-root-link", arena, arena + "/chain2", "pack.root-chained-link", false},
+				{"root-link-trailing-slash", arena, arena + "/abslink/", "pack.root-link-trailing-slash", false},
+				// the source directory below a linked PARENT directory: the last component is the directory itself
+				{"parent-link", arena, arena + "/lnkparent/src", "", false},
+				{"parent-link-absolute-target", arena + "/p", arena + "/lnkparentabs/src", "", false},
+				{"parent-link-relative-spelling", arena, "lnkparent/src", "", false},
+				{"parent-link-chain", arena, arena + "/q/up/src", "", false},
+				// a relative spelling from a working directory that was entered through the link
+				{"cwd-through-link", arena + "/lnkparent", "src", "", true},
+				{"cwd-through-link-dot", arena + "/lnkparent/src", ".", "", true},
 			}
 			var base string
 			for vi, v := range vs {
@@ -1223,8 +1466,19 @@ func init() {
 					parseSafe("!foo\n!.git/\n")
 				}
 				os.Chdir(v.cwd)
+				oldPwd, hadPwd := os.LookupEnv("PWD")
+				if v.pwd {
+					os.Setenv("PWD", v.cwd)
+				}
 				var buf bytes.Buffer
 				out := runPack(v.src, &buf, &buf, c.Deref, c.Ignore, nil)
+				if v.pwd {
+					if hadPwd {
+						os.Setenv("PWD", oldPwd)
+					} else {
+						os.Unsetenv("PWD")
+					}
+				}
 				os.Chdir(origWd)
 				canon := canonPack(out)
 				reqs = append(reqs, fmt.Sprintf("pack %s %s %s %s - %s", X(v.cwd), X(v.src), B01(c.Deref), B01(c.Ignore), fsdump))
@@ -1235,6 +1489,18 @@ func init() {
 				rep.Count("variant:" + v.name)
 				if vi == 0 {
 					base = canon
+					continue
+				}
+				if absInTreeLink && (strings.HasPrefix(v.name, "parent-link") || v.pwd) {
+					// F48 (open): validSymlink compares an absolute link target with the root AS SPELLED, so a tree
+					// with an absolute link target named by its physical path packs differently when the root is
+					// reached through a symlinked ancestor; the model reproduces it (compared above)
+					if canon != base {
+						rep.Count("parent-link (absolute link target):differs")
+						rep.AddOracle(OracleFailure{Property: "C16", Lane: "pack-spelling", What: fmt.Sprintf("slug for spelling %q (cwd %q) through a symlinked ancestor differs from the slug for the physical path: the tree has a link with an absolute target (result %s)", in["src"], in["cwd"], out.class), Input: in, Signature: "pack.parent-link-absolute-target", ReqIdx: len(reqs)})
+					} else {
+						rep.Count("parent-link (absolute link target):same")
+					}
 					continue
 				}
 				if canon != base {
